@@ -41,8 +41,11 @@ P_LINE = 0.3
 
 def gen(rng, tier, i):
     if rng.random() < P_LINE:
-        return _gen.line_decorate(
+        plan = _gen.line_decorate(
             rng, _gen.gen_server_plan(rng, LINE_PROFILE), LINE_HOT)
+        if rng.random() < 0.5:
+            _gen.race_cluster(rng, plan)
+        return plan
     return _gen.gen_server_plan(rng, PROFILE)
 
 
@@ -56,7 +59,9 @@ def run(plan, sched_values=None, sched_seed=0):
     pr = {}
     # heartbeat-boundary ties (PONG exactly at the deadline) belong to C07,
     # where they are aimed at and listed as finding K7
-    tie = [x for x in v if x['sig'].endswith('ws-timeout-tie-pong-at-deadline')]
+    tie = [x for x in v if x['sig'].endswith(
+        ('ws-timeout-tie-pong-at-deadline',
+         'ws-reader-timeout-armed-at-upgrade'))]
     if tie:
         pr['heartbeat_tie_left_to_C07'] = len(tie)
         v = [x for x in v if x not in tie]
